@@ -95,6 +95,10 @@ func bitsLE(b1, b2 int, strict bool) bool {
 // lossyParsedConv follows v back through conversions to the strconv call that produced it
 // and reports a conversion whose target type cannot represent every value the parse can
 // yield (given the call's constant bitSize). "" means value preserving.
+// paramActual, when set, maps a parameter of a helper with exactly one static call site to the
+// argument passed there (Prog.Actual): conversions on both sides of the call are examined.
+var paramActual func(ssa.Value) ssa.Value
+
 func lossyParsedConv(v ssa.Value) string {
 	var convs []*ssa.Convert
 	for {
@@ -106,6 +110,13 @@ func lossyParsedConv(v ssa.Value) string {
 		case *ssa.ChangeType:
 			v = x.X
 			continue
+		case *ssa.Parameter:
+			if paramActual != nil {
+				if w := paramActual(x); w != v {
+					v = w
+					continue
+				}
+			}
 		}
 		break
 	}
@@ -391,17 +402,15 @@ func checkC06(c *Ctx) {
 		if decided {
 			continue
 		}
-		// gate inside the DATA-read function G, whose error result guards Deliver
-		var gcall *ssa.Call
-		eng.EachInstr(F, func(in ssa.Instruction) {
-			if call, ok := in.(*ssa.Call); ok && eng.StaticCallee(call.Common()) == m.dataRead {
-				gcall = call
-			}
-		})
-		if gcall == nil {
-			r.Bad("C06/SIZE/data", cons, p.InstrPos(site), "Deliver is called in a function that neither compares the data length with MaxMessageBytes nor calls the DATA-read function %s", shortFn(m.dataRead))
+		// gate inside the DATA-read function G, whose error result guards Deliver (or the
+		// call of the helper that delivers)
+		lifted, gcall, lok := m.liftToDataReader(p, site)
+		if !lok {
+			r.Bad("C06/SIZE/data", cons, p.InstrPos(site), "Deliver is called in a function that neither compares the data length with MaxMessageBytes nor calls (or is called only from the caller of) the DATA-read function %s", shortFn(m.dataRead))
 			continue
 		}
+		site, F = lifted, lifted.Parent()
+		isDeliver = func(in ssa.Instruction) bool { return in == site.(ssa.Instruction) }
 		gatesG, unkG := findSizeGates(m.dataRead, m.fMaxBytes, isLen)
 		for _, u := range unkG {
 			r.Undecided("C06/SIZE/data", cons, p.InstrPos(u), "branch on MaxMessageBytes in %s against a value the rule cannot classify as the received size", shortFn(m.dataRead))
@@ -503,24 +512,58 @@ func checkC06(c *Ctx) {
 				return false
 			}, nil)
 			var handled *ssa.BasicBlock
+			var viaHelper *ssa.Call
 			if sentinel != nil && errVal != nil {
-				for _, b := range F.Blocks {
-					for k := 0; k < 2; k++ {
-						rel, ok := eng.EdgeRel(b, k)
-						if !ok || rel.Op != token.EQL {
-							continue
-						}
-						x, y := rel.X, rel.Y
-						if y == errVal {
-							x, y = y, x
-						}
-						if x != errVal {
-							continue
-						}
-						if u, ok := y.(*ssa.UnOp); ok && u.Op == token.MUL && u.X == ssa.Value(sentinel) {
-							handled = b.Succs[k]
+				// the comparison with the sentinel: in F on the read's error, or in a helper of
+				// the package that F hands the error to
+				type cand struct {
+					fn   *ssa.Function
+					ev   ssa.Value
+					call *ssa.Call
+				}
+				cands := []cand{{F, errVal, nil}}
+				eng.EachInstr(F, func(in ssa.Instruction) {
+					call, ok := in.(*ssa.Call)
+					if !ok {
+						return
+					}
+					g := eng.StaticCallee(call.Common())
+					if g == nil || len(g.Blocks) == 0 || eng.FuncPkgPath(g) != eng.Mod+"/"+smtpRel {
+						return
+					}
+					for i, a := range call.Call.Args {
+						if a == errVal && i < len(g.Params) {
+							cands = append(cands, cand{g, g.Params[i], call})
 						}
 					}
+				})
+				for _, cd := range cands {
+					for _, b := range cd.fn.Blocks {
+						for k := 0; k < 2; k++ {
+							rel, ok := eng.EdgeRel(b, k)
+							if !ok || rel.Op != token.EQL {
+								continue
+							}
+							x, y := rel.X, rel.Y
+							if y == cd.ev {
+								x, y = y, x
+							}
+							if x != cd.ev {
+								continue
+							}
+							if u, ok := y.(*ssa.UnOp); ok && u.Op == token.MUL && u.X == ssa.Value(sentinel) {
+								handled = b.Succs[k]
+								viaHelper = cd.call
+							}
+						}
+					}
+				}
+			}
+			if viaHelper != nil {
+				// back in F after the helper returns: the session must not be closed there
+				if hit := (&eng.Search{Target: m.entersState("QUIT")}).After(viaHelper); hit != nil {
+					r.Bad("C06/USABLE", cons, gs, "after the over-limit error is handled by %s the caller reaches enterState(QUIT) at %s", shortFn(eng.StaticCallee(viaHelper.Common())), p.InstrPos(hit))
+					continue
 				}
 			}
 			if handled == nil {
